@@ -69,6 +69,16 @@ class World:
         else:
             self.s[x] = tmo.MultiStream(None, thermo=th, T=rng.choice([350., 365.]), P=101325., l=[('Water', 5), ('Ethanol', 2)], g=[('Ethanol', 3), ('Water', 1)])
 
+    def relabel(self, x):
+        """Switch the phase of a single-phase slot (liquid <-> gas) in place, at unchanged T, P and flows, after its enthalpy
+        has been read (state shaping, not judged)."""
+        s = self.s[x]
+        if s.isempty() or isinstance(s, tmo.MultiStream) or s.phase not in ('l', 'g') or s.imol['N2'] != 0:
+            return False
+        s.H, s.S       # read before the switch
+        s.phase = 'g' if s.phase == 'l' else 'l'
+        return True
+
     def mix_reach(self, r, ins, Q):
         """whether sum H_in + Q lies between the enthalpies of the mixed material at the ends of the model range"""
         try:
